@@ -33,8 +33,8 @@ for i in range(1, 21):
     sp = os.path.join(suite_dir, 'mut_%s.log.summary' % sid)
     if os.path.exists(sp):
         txt = open(sp).read()
-        tot = dict(re.findall(r'^(\w+) (\d+)$', txt, re.M))
-        fails = [l for l in txt.splitlines() if re.match(r'^(FAIL|ERROR): \S', l)]
+        tot = dict(re.findall(r'^(\w+):? (\d+)$', txt, re.M))
+        fails = [l for l in txt.splitlines() if re.match(r'^(FAIL|ERROR): \D', l)]
         m['confirmed_here']['repository_test_suite'] = {'totals': {k: int(v) for k, v in tot.items()}, 'failing_tests': fails,
             'how': 'tools/suite_run.sh: patch applied to a scratch copy of the built tree (sources of /repo HEAD), bind-mounted at /repo in a private mount namespace, make -j16 && make -k -j16 check, guard BUGSENG_PPL_VERIF off'}
     else:
@@ -44,5 +44,9 @@ for i in range(1, 21):
         m['quick_check'] = {'command': 'bin/check %s --tier quick (VERIF_SEED=1) with patch.diff applied to /repo (git apply; git checkout -- . afterwards)' % sid,
                             'exit': s['exit'], 'verdict': 'caught' if s['exit'] == 1 else ('missed' if s['exit'] == 0 else 'harness failure'),
                             'first_keys': s['keys'][:8], 'run': s['summary']}
+    if sid == 'C07' and m.get('quick_check', {}).get('verdict') == 'missed':
+        m['quick_check']['note'] = ('masked, not unobserved: the run reports violations of class C07.incremental_vs_fresh.add_params.*:prior-tree-has-artificials, '
+                                    'but the unchanged tree already fails in exactly this class (open known finding: PIP incremental re-solve), so the key is listed and the check exits 0; '
+                                    'the change becomes visible once that defect is repaired, because a fixed entry suppresses nothing')
     json.dump(m, open(os.path.join(d, 'meta.json'), 'w'), indent=1)
     print(sid, m['quick_check'].get('verdict'), m['confirmed_here'].get('demonstration', {}).get('exit_with_change'), m['confirmed_here'].get('repository_test_suite', {}).get('totals'))
